@@ -133,6 +133,44 @@ Definition init_state (lr0 : N -> Z) (now0 : Z) : state := mkState no_holds lr0 
 Definition default_duration (o : op) : bool :=
   match o with Hold _ g dur _ => (g =? system)%N || (dur =? 0) | _ => true end.
 
+(* ghost: the time at which the current hold episode of g on s started. It is defined from the presence and absence
+   of the entry only (not from its first-held field): an entry that appears starts an episode at the time of the
+   request, an entry that stays keeps its episode, an entry that disappears ends it. *)
+Definition episodes := N -> N -> option Z.
+Definition ep_step (st st' : state) (ep : episodes) : episodes :=
+  fun s g => match st_gating st' s g with
+             | None => None
+             | Some _ => match st_gating st s g with None => Some (st_now st) | Some _ => ep s g end
+             end.
+Fixpoint run_ep (st : state) (ep : episodes) (ops : list op) : state * episodes :=
+  match ops with
+  | [] => (st, ep)
+  | o :: r => let st' := step st o in run_ep st' (ep_step st st' ep) r
+  end.
+Definition no_episodes : episodes := fun _ _ => None.
+
+Definition forty_eight_h : Z := 172800000000000.
+Definition ninety_days : Z := 7776000000000000.
+
+(* the bound has been reached for a hold of s by the gating snap g *)
+Definition at_bound (st : state) (g s : N) : Prop :=
+  st_lastref st s + ninety_days <= st_now st \/
+  exists h, st_gating st s g = Some h /\
+            h_first h + (if (s =? g)%N then ninety_days else forty_eight_h) <= st_now st.
+
+(* the operation does not set or lift the administrator's hold on s *)
+Definition sys_untouched (s : N) (o : op) : bool :=
+  match o with
+  | Hold _ g _ snaps => negb (g =? system)%N || negb (mem s snaps)
+  | SysHold _ _ snaps => negb (mem s snaps)
+  | Proceed g snaps => negb (g =? system)%N || (match snaps with [] => false | _ => negb (mem s snaps) end)
+  | _ => true
+  end.
+
+(* the end of a system hold requested at time now: forever = the largest duration *)
+Definition sys_until (now : Z) (t : option Z) : Z :=
+  match t with None => now + max_int64 | Some u => now + clamp64 (u - now) end.
+
 (* ------------------------------------------------------------------ correspondence interface *)
 
 (* what the driver records after every operation: the operation, its result (Some remaining | None = refused), the
@@ -200,9 +238,6 @@ Definition mismatch (c : case) : bool :=
    It uses the observed table and HeldSnaps results, the operations and the clock; not the model's transition
    functions. Ghost state kept by the monitor: the observed table after the previous step, the last-refresh times
    (which the driver itself sets), and the currently valid system hold requests. *)
-
-Definition forty_eight_h : Z := 172800000000000.
-Definition ninety_days : Z := 7776000000000000.
 
 Record mon := mkMon {
   m_table : list (N * N * Z * Z * N);
